@@ -46,7 +46,7 @@ def run_driver(binary, cmd, inputs, timeout=600):
 
 # ---------------------------------------------------------------- assumptions on the initial state
 
-def state_assumptions(project, max_calls=8):
+def state_assumptions(project, max_calls=40):
     """Stack pointer aligned at function entry; 1-byte registers are flags holding 0/1 (at entry and after calls)."""
     a = []
     sp = project["sp"]
